@@ -256,6 +256,7 @@ COMPONENTS = {
         'trace_module': 'Trace_Bulkhead', 'trace_cfg_tmpl': 'Trace_Bulkhead.cfg.tmpl',
         'tour': {'cfg': 'Tour_Bulkhead.cfg', 'module': 'MC_Bulkhead', 'n': {'quick': 1200, 'thorough': 25000}},
         'harness': 'bulkhead',
+        'apalache': {'module': 'apalache/BulkheadInd.tla', 'cinit': 'ConstInit', 'init': 'Init', 'indinit': 'IndInit', 'inv': 'IndInv'},
         'random': {'quick': [{'runs': 1500}], 'thorough': [{'runs': 20000}, {'runs': 5000, 'size': 'quick'}]},
         'corrupt': _bulkhead_corrupt,
     },
